@@ -278,8 +278,12 @@ class GInterp(Interp):
                 init, _cv, cond, inc, body = n["inner"]
                 self.stmt(init)
                 while True:
-                    if cond.get("kind") and not self.decide(self.rval(cond)):
-                        break
+                    if cond.get("kind"):
+                        cv = self.rval(cond)
+                        if is_sym(cv):
+                            raise CUnsupported("loop %s#%d has a symbolic condition and no invariant in the side-car" % key)
+                        if cv == 0:
+                            break
                     try:
                         self.stmt(body)
                     except CI._Break:
@@ -291,7 +295,12 @@ class GInterp(Interp):
                 return
             if k == "WhileStmt":
                 cond, body = n["inner"][-2], n["inner"][-1]
-                while self.decide(self.rval(cond)):
+                while True:
+                    cv = self.rval(cond)
+                    if is_sym(cv):
+                        raise CUnsupported("loop %s#%d has a symbolic condition and no invariant in the side-car" % key)
+                    if cv == 0:
+                        break
                     try:
                         self.stmt(body)
                     except CI._Break:
@@ -323,6 +332,8 @@ class GInterp(Interp):
                 self.store(LV(r, 0, TPtr(TInt(8, False))), Ptr(t[1], self.fresh(name + "_off", OW)))
         for sr in cut.havoc_regions:
             sr.arr = E.fresh(sr.name, z3.ArraySort(z3.BitVecSort(OW), z3.BitVecSort(8)))
+        if getattr(cut, "pre_assume", None):
+            cut.pre_assume(self)          # contract-specific havoc of heap state the loop modifies
         head_inv = cut.inv(self)
         for label, g in head_inv:
             E.assume(g)
@@ -340,6 +351,8 @@ class GInterp(Interp):
                 pass
             if inc.get("kind"):
                 self.rval(inc)
+            if getattr(cut, "at_back_edge", None):
+                cut.at_back_edge(self)
             kc0 = z3.BitVec("k!sk", OW)
             if cut.lemmas:
                 for ll, lg in cut.lemmas(self, head, kc0):
